@@ -26,6 +26,9 @@ pub struct Case {
     pub xf: Option<Xf>,
     pub clip: Option<[i32; 4]>,
     pub layer: bool,
+    /// a clip rectangle left pushed on the *source* surface (to be ignored as well)
+    #[serde(default)]
+    pub src_clip: Option<[i32; 4]>,
 }
 
 fn tagged(w: i32, h: i32, base: u32) -> Vec<u32> {
@@ -63,7 +66,11 @@ pub fn model(c: &Case) -> Vec<u32> {
 }
 
 pub fn run_impl(c: &Case) -> Vec<u32> {
-    let src = DrawTarget::from_vec(c.sw, c.sh, c.src.clone());
+    let mut src = DrawTarget::from_vec(c.sw, c.sh, c.src.clone());
+    if let Some(r) = &c.src_clip {
+        src.push_clip_rect(irect(r[0], r[1], r[2], r[3]));
+        src.set_transform(&Transform::translation(3.0, -2.0));
+    }
     let mut dt = DrawTarget::from_vec(c.dw, c.dh, c.dst.clone());
     if let Some(x) = &c.xf {
         dt.set_transform(&to_transform(x));
@@ -145,6 +152,7 @@ pub fn check(c: &Case) -> CheckResult {
     o.class_if(region > 0 && ((x2 as i64 - x1 as i64) > i32::MAX as i64 / 2 || (y2 as i64 - y1 as i64) > i32::MAX as i64 / 2), "transfer-through-a-rect-spanning-billions");
     o.class_if(c.kind == 2, "blend_surface_with_alpha");
     o.class_if(c.xf.is_some() || c.clip.is_some() || c.layer, "state-to-ignore-set");
+    o.class_if(c.src_clip.is_some(), "clip-and-transform-set-on-the-source");
     let _ = moved;
     Ok(o)
 }
@@ -188,6 +196,7 @@ fn decode(tier: Tier, mut i: u64) -> Case {
         xf: None,
         clip: None,
         layer: false,
+        src_clip: None,
     }
 }
 
@@ -255,9 +264,10 @@ pub fn strategy() -> BoxedStrategy<Case> {
                 // allocation under far-away clip rects is C06/C07's subject, not this property's
                 prop::option::weighted(0.3, (-3..=m + 3, -3..=m + 3, -3..=m + 3, -3..=m + 3)),
                 prop::bool::weighted(0.2),
+                prop::option::weighted(0.2, (-2..=m + 2, -2..=m + 2, -2..=m + 6, -2..=m + 6)),
             )
         })
-        .prop_map(|((sw, sh, dw, dh), src, dst, (a, b, c, d), (ax, ay), kind, mode, alpha, xf, clip, layer)| Case {
+        .prop_map(|((sw, sh, dw, dh), src, dst, (a, b, c, d), (ax, ay), kind, mode, alpha, xf, clip, layer, sclip)| Case {
             sw,
             sh,
             dw,
@@ -272,6 +282,7 @@ pub fn strategy() -> BoxedStrategy<Case> {
             xf,
             clip: clip.map(|(a, b, c, d)| [a.min(c), b.min(d), a.max(c), b.max(d)]),
             layer,
+            src_clip: sclip.map(|(a, b, c, d)| [a.min(c), b.min(d), a.max(c), b.max(d)]),
         })
         .boxed()
 }
@@ -285,7 +296,7 @@ pub fn property(_ctx: &Ctx) -> Property {
             enum_part("grid", grid_size(Tier::Quick), grid_size(Tier::Thorough), decode, check),
             part("random", 200_000, 5_000_000, strategy, check),
         ],
-        min_class_fraction: vec![("random", "src-rect-origin-nonzero", 0.25), ("random", "partially-clipped", 0.25), ("random", "transfer-nonempty", 0.4)],
+        min_class_fraction: vec![("random", "src-rect-origin-nonzero", 0.25), ("random", "partially-clipped", 0.25), ("random", "transfer-nonempty", 0.4), ("random", "clip-and-transform-set-on-the-source", 0.1)],
         panic_is_violation: true,
     }
 }
